@@ -352,4 +352,173 @@ def prApi (api : Api) : String :=
     else some (spaced ["(", encStr p, prList ((sortBy (·.1) ss).map fun (k, r) =>
       spaced ["(", encStr k, prDRoot r, ")"]), ")"]))
 
+/-! ## D-side parser (op `import`) -/
+
+def pRef : P Ref := fun ts => do
+  let (_, ts) ← tok "(" ts
+  let (p, ts) ← pStr ts
+  let (s, ts) ← pStr ts
+  let (_, ts) ← tok ")" ts
+  pure (⟨p, s⟩, ts)
+
+def pDEnumBody : P DEnum := fun ts => do
+  let (n, ts) ← pStr ts
+  let (d, ts) ← pStr ts
+  let (pf, ts) ← pStr ts
+  let (opts, ts) ← pList pOption ts
+  let (info, ts) ← pList pInfoField ts
+  let (_, ts) ← tok ")" ts
+  pure (⟨n, d, pf, opts, info⟩, ts)
+
+mutual
+partial def pDFieldOpt : P (Option DField) := fun ts =>
+  match ts with
+  | "nil" :: rest => some (none, rest)
+  | _ => (pDField ts).map fun (f, r) => (some f, r)
+partial def pDField : P DField := fun ts =>
+  match ts with
+  | "unset" :: rest => some (.unset, rest)
+  | _ => do
+    let (_, ts) ← tok "(" ts
+    let (kind, ts) ← anyTok ts
+    match kind with
+    | "scalar" =>
+      let (t, ts) ← anyTok ts
+      let tag ← tagOf t
+      let (fmt, ts) ← pNat ts
+      let (pay, ts) ← anyTok ts
+      let (_, ts) ← tok ")" ts
+      pure (.scalar tag fmt pay, ts)
+    | "any" =>
+      let (od, ts) ← pBool ts
+      let (types, ts) ← pList pStr ts
+      let (lr, ts) ← pPay ts
+      let (_, ts) ← tok ")" ts
+      pure (.any od types lr, ts)
+    | "oneof" =>
+      let (form, ts) ← anyTok ts
+      match form with
+      | "ref" =>
+        let (r, ts) ← pRef ts
+        let (a, ts) ← pPay ts; let (b, ts) ← pPay ts; let (c, ts) ← pPay ts
+        let (_, ts) ← tok ")" ts
+        pure (.oneofRef r a b c, ts)
+      | "inline" =>
+        let (_, ts) ← tok "(" ts
+        let (_, ts) ← tok "oneof" ts
+        let (o, ts) ← pDOneofBody ts
+        let (a, ts) ← pPay ts; let (b, ts) ← pPay ts; let (c, ts) ← pPay ts
+        let (_, ts) ← tok ")" ts
+        pure (.oneofInline o a b c, ts)
+      | "noschema" =>
+        let (a, ts) ← pPay ts; let (b, ts) ← pPay ts; let (c, ts) ← pPay ts
+        let (_, ts) ← tok ")" ts
+        pure (.oneofNone a b c, ts)
+      | _ => none
+    | "object" =>
+      let (form, ts) ← anyTok ts
+      match form with
+      | "ref" =>
+        let (r, ts) ← pRef ts
+        let (fl, ts) ← pBool ts
+        let (a, ts) ← pPay ts; let (b, ts) ← pPay ts; let (c, ts) ← pPay ts
+        let (_, ts) ← tok ")" ts
+        pure (.objectRef r fl a b c, ts)
+      | "inline" =>
+        let (_, ts) ← tok "(" ts
+        let (_, ts) ← tok "obj" ts
+        let (o, ts) ← pDObjectBody ts
+        let (fl, ts) ← pBool ts
+        let (a, ts) ← pPay ts; let (b, ts) ← pPay ts; let (c, ts) ← pPay ts
+        let (_, ts) ← tok ")" ts
+        pure (.objectInline o fl a b c, ts)
+      | "noschema" =>
+        let (fl, ts) ← pBool ts
+        let (a, ts) ← pPay ts; let (b, ts) ← pPay ts; let (c, ts) ← pPay ts
+        let (_, ts) ← tok ")" ts
+        pure (.objectNone fl a b c, ts)
+      | _ => none
+    | "enum" =>
+      let (form, ts) ← anyTok ts
+      match form with
+      | "ref" =>
+        let (r, ts) ← pRef ts
+        let (a, ts) ← pPay ts; let (b, ts) ← pPay ts; let (c, ts) ← pPay ts
+        let (_, ts) ← tok ")" ts
+        pure (.enumRef r a b c, ts)
+      | "inline" =>
+        let (_, ts) ← tok "(" ts
+        let (_, ts) ← tok "enum" ts
+        let (e, ts) ← pDEnumBody ts
+        let (a, ts) ← pPay ts; let (b, ts) ← pPay ts; let (c, ts) ← pPay ts
+        let (_, ts) ← tok ")" ts
+        pure (.enumInline e a b c, ts)
+      | "noschema" =>
+        let (a, ts) ← pPay ts; let (b, ts) ← pPay ts; let (c, ts) ← pPay ts
+        let (_, ts) ← tok ")" ts
+        pure (.enumNone a b c, ts)
+      | _ => none
+    | "array" =>
+      let (items, ts) ← pDFieldOpt ts
+      let (a, ts) ← pPay ts; let (b, ts) ← pPay ts
+      let (_, ts) ← tok ")" ts
+      pure (.array items a b, ts)
+    | "map" =>
+      let (item, ts) ← pDFieldOpt ts
+      let (key, ts) ← pDFieldOpt ts
+      let (a, ts) ← pPay ts; let (b, ts) ← pPay ts
+      let (_, ts) ← tok ")" ts
+      pure (.map item key a b, ts)
+    | _ => none
+partial def pDProp : P DProp := fun ts => do
+  let (_, ts) ← tok "(" ts
+  let (n, ts) ← pStr ts
+  let (req, ts) ← pBool ts
+  let (opt, ts) ← pBool ts
+  let (d, ts) ← pStr ts
+  let (pf, ts) ← pList pInt ts
+  let (f, ts) ← pDFieldOpt ts
+  let (_, ts) ← tok ")" ts
+  pure (.mk n req opt d pf f, ts)
+/-- after `( obj` -/
+partial def pDObjectBody : P DObject := fun ts => do
+  let (n, ts) ← pStr ts
+  let (d, ts) ← pStr ts
+  let (e, ts) ← pPay ts
+  let (am, ts) ← pList pStr ts
+  let (props, ts) ← pList pDProp ts
+  let (_, ts) ← tok ")" ts
+  pure (.mk n d e am props, ts)
+/-- after `( oneof` -/
+partial def pDOneofBody : P DOneof := fun ts => do
+  let (n, ts) ← pStr ts
+  let (d, ts) ← pStr ts
+  let (props, ts) ← pList pDProp ts
+  let (_, ts) ← tok ")" ts
+  pure (.mk n d props, ts)
+end
+
+def pDRoot : P DRoot := fun ts =>
+  match ts with
+  | "unset" :: rest => some (.unset, rest)
+  | "(" :: "obj" :: rest => (pDObjectBody rest).map fun (o, r) => (.object o, r)
+  | "(" :: "oneof" :: rest => (pDOneofBody rest).map fun (o, r) => (.oneof o, r)
+  | "(" :: "enum" :: rest => (pDEnumBody rest).map fun (e, r) => (.enum e, r)
+  | _ => none
+
+def parseApi (ts : List String) : Option Api :=
+  match pList (fun ts => do
+      let (_, ts) ← tok "(" ts
+      let (p, ts) ← pStr ts
+      let (ss, ts) ← pList (fun ts => do
+        let (_, ts) ← tok "(" ts
+        let (k, ts) ← pStr ts
+        let (r, ts) ← pDRoot ts
+        let (_, ts) ← tok ")" ts
+        pure ((k, r), ts)) ts
+      let (_, ts) ← tok ")" ts
+      pure ((p, ss), ts)) ts with
+  | some (api, []) => some api
+  | _ => none
+
 end J5V.Schema.Wire
